@@ -387,16 +387,20 @@ def _fill_group(g, desc, chunks, compress):
 class TracingStore(WrapperStore):
     """Records every mutation in program order; raises OSError at mutation number `fail_at` (0-based) if given."""
 
-    def __init__(self, store, fail_at=None, log=None):
+    def __init__(self, store, fail_at=None, log=None, expand=None):
+        """expand: None = delete_dir is one mutation (store-API granularity); "listing" / "reversed" / "chunks-first" / "meta-first" =
+        delete_dir is carried out key by key in that order, every key deletion being a mutation that can fail (what a directory
+        store's rmtree or an object store's prefix deletion does underneath)"""
         super().__init__(store)
         self.log = [] if log is None else log
         self.fail_at = fail_at
+        self.expand = expand
 
     def _with_store(self, store):
-        return type(self)(store, self.fail_at, self.log)
+        return type(self)(store, self.fail_at, self.log, self.expand)
 
     def with_read_only(self, read_only: bool = False):
-        return type(self)(self._store.with_read_only(read_only), self.fail_at, self.log)
+        return type(self)(self._store.with_read_only(read_only), self.fail_at, self.log, self.expand)
 
     def _tick(self, op, key):
         idx = len(self.log)
@@ -417,8 +421,21 @@ class TracingStore(WrapperStore):
         return await self._store.delete(key)
 
     async def delete_dir(self, prefix):
-        self._tick("deldir", prefix)
-        return await self._store.delete_dir(prefix)
+        if self.expand is None:
+            self._tick("deldir", prefix)
+            return await self._store.delete_dir(prefix)
+        pre = prefix if prefix.endswith("/") or prefix == "" else prefix + "/"
+        keys = [k async for k in self._store.list_prefix(pre)]
+        is_meta = lambda k: k.rsplit("/", 1)[-1] in (".zarray", ".zgroup", ".zattrs", "zarr.json")  # noqa: E731
+        if self.expand == "reversed":
+            keys = keys[::-1]
+        elif self.expand == "chunks-first":
+            keys = sorted(keys, key=lambda k: (is_meta(k), k))
+        elif self.expand == "meta-first":
+            keys = sorted(keys, key=lambda k: (not is_meta(k), k))
+        for k in keys:
+            self._tick("del", k)
+            await self._store.delete(k)
 
 
 def snapshot(store) -> dict:
